@@ -10,7 +10,8 @@
                                     files visited in Go map order; first undecodable segment
                                     aborts the load with nothing pushed)
      v2/migrator/migrator.go migrateSwamp, loadV1Swamp, writeV2File, verifyMigration, deleteV1Files *)
-From HV Require Import Base.Prelude Storage.C03Compact.
+From HV Require Import Base.Prelude.
+From HV Require Export Storage.C03Compact.
 Local Open Scope N_scope.
 
 Inductive seg := SOk (k : key) (v : pay) | SBad.   (* SBad: gob decode fails or the key is empty *)
